@@ -50,6 +50,7 @@ def with_galg(ex, case):
     ex.galg_formal_coeffs = bool(case is not None and case.opts.get('formal_coeffs'))
     if galg.refine_model not in ex.model_refiners:
         ex.model_refiners.append(galg.refine_model)
+        ex.model_refiners.append(galg.refine_products)
     stubs_hash.install(ex)
     stubs_big.install(ex)
     stubs_chacha.install(ex)
